@@ -152,7 +152,7 @@ func runC03(c *ev.Ctx) {
 	if c.Thorough() {
 		pairStep = 1
 	}
-	c.Rule(fmt.Sprintf("valid JSON texts generated from a specification tree plus spelling choices (expected result known by construction): (1) every tree with <= %d nodes, depth <= 3 over 9 leaves and keys {\"\",a,b}, plus every object with 2..3 members over keys {\"\",a,b} WITH duplicate keys (last wins), flat and nested; (2) for every tree with <= %d nodes: whitespace layouts none / each single gap x {SP,LF,CR,HT,SP LF HT CR} / every gap x the same; (3) strings as list element, object value and key: every scalar value >= U+0020 except quote and backslash raw, every BMP non-surrogate code point as a \\uXXXX escape in lower and upper hex, surrogate-pair escapes on a grid with step %d over both halves (step 1 = all 1 048 576), the 8 short escapes, every string of <= %d tokens over a 14-token raw/escape alphabet; (3b) every literal of <= 2 such tokens crossed with 4 whitespace choices in each of the 4 gaps around it, as key / object value / list elements (spelling x layout); (4) numbers: sign x 8 integer parts x 6 fractions x 9 exponents as element and object value, followed by each delimiter and each whitespace. Every text is first validated by the strict recogniser and encoding/json against the expectation (generator self-check = harness error, never a violation). Non-trivial = distinct text containing an escape, a non-ASCII byte, whitespace, a fraction/exponent or nesting >= 2.", treeN, wsN, pairStep, tokLen))
+	c.Rule(fmt.Sprintf("valid JSON texts generated from a specification tree plus spelling choices (expected result known by construction): (1) every tree with <= %d nodes, depth <= 3 over 9 leaves and keys {\"\",a,b}, plus every object with 2..3 members over keys {\"\",a,b} WITH duplicate keys (last wins), flat and nested; (2) for every tree with <= %d nodes: whitespace layouts none / each single gap x {SP,LF,CR,HT,SP LF HT CR} / every gap x the same; (3) strings as list element, object value and key: every scalar value >= U+0020 except quote and backslash raw, every BMP non-surrogate code point as a \\uXXXX escape in lower and upper hex, surrogate-pair escapes on a grid with step %d over both halves (step 1 = all 1 048 576), the 8 short escapes, every string of <= %d tokens over a 14-token raw/escape alphabet; (3b) every literal of <= 2 such tokens crossed with 4 whitespace choices in each of the 4 gaps around it, as key / object value / list elements (spelling x layout); (4) numbers: sign x 8 integer parts x 6 fractions x 9 exponents as element and object value, followed by each delimiter and each whitespace; (4b) decimals whose 16-19 digits form an integer next to 2^53, 10^16, 10^17, 10^18, 2^63 (512 each) with the point at every second position, plain / with leading -0. / with exponent. Every text is first validated by the strict recogniser and encoding/json against the expectation (generator self-check = harness error, never a violation). Non-trivial = distinct text containing an escape, a non-ASCII byte, whitespace, a fraction/exponent or nesting >= 2.", treeN, wsN, pairStep, tokLen))
 	c.Assume("expected number kinds follow the statement: integer literal fitting int -> int, everything else within float64 range -> correctly rounded float64 (big.Rat)", "lone surrogate escapes have no agreed decoding and are not generated")
 
 	gen := func(emit func(c03Doc) bool) {
@@ -332,6 +332,25 @@ func runC03(c *ev.Ctx) {
 					!emit(c03Doc{`{"k"` + g0 + ":" + g1 + l + g2 + "," + g3 + `"j":2}`, spec.O(spec.P("k", spec.S(v)), spec.P("j", spec.I(2))), "layout-x-spelling/object-value"}) ||
 					!emit(c03Doc{"[" + g0 + l + g1 + "," + g2 + l + g3 + "]", spec.L(spec.S(v), spec.S(v)), "layout-x-spelling/list"}) {
 					return
+				}
+			}
+		}
+		// (4b) decimals with 16-19 significant digits: the digit string is an integer around 2^53, 10^16, 10^17,
+		// 10^18 or 2^63 (not exactly representable when odd), the point stands at every position. A shortcut
+		// that converts the digits as one integer and scales by a power of ten rounds twice.
+		for _, base := range []uint64{1 << 53, 10000000000000000, 100000000000000000, 1000000000000000000, 1<<63 - 2048} {
+			for k := uint64(0); k < 512; k++ {
+				digs := strconv.FormatUint(base+k*3+1, 10)
+				for pos := 1; pos < len(digs); pos += 2 {
+					for _, lit := range []string{digs[:pos] + "." + digs[pos:], "-0." + digs[:pos] + digs[pos:], digs[:pos] + "." + digs[pos:] + "e-3"} {
+						want, ok := numberSpec(lit)
+						if !ok {
+							continue
+						}
+						if !emit(c03Doc{"[" + lit + "]", spec.L(want), "number/long-mantissa"}) || !emit(c03Doc{`{"k":` + lit + "}", spec.O(spec.P("k", want)), "number/long-mantissa"}) {
+							return
+						}
+					}
 				}
 			}
 		}
